@@ -42,6 +42,9 @@ pub struct Local {
     pub fail_counts: BTreeMap<String, u64>,
     pub samples: Vec<String>,
     pub cur_index: usize,
+    /// C15 pair accounting (only when the run reports C15)
+    pub count_pairs: bool,
+    pub pairs: BTreeMap<(&'static str, &'static str), u64>,
 }
 
 impl Local {
@@ -76,6 +79,9 @@ impl Local {
         for (k, v) in o.fail_counts {
             *self.fail_counts.entry(k).or_insert(0) += v;
         }
+        for (k, v) in o.pairs {
+            *self.pairs.entry(k).or_insert(0) += v;
+        }
         for s in o.samples {
             if self.samples.len() < 24 && !self.samples.iter().any(|x| x.split(' ').take(2).eq(s.split(' ').take(2))) {
                 self.samples.push(s);
@@ -95,6 +101,8 @@ pub struct Ctx {
     pub level: String,
     pub threads: usize,
     pub only_family: Option<String>,
+    /// explore only every `stride`-th index of each family's enumeration (1 = complete); used by the C11/C15 quick tiers
+    pub stride: usize,
     pub replay: Option<Value>,
     pub start: Instant,
     pub total: Mutex<Local>,
@@ -163,6 +171,7 @@ impl Ctx {
         let evidence_path = get("--evidence").unwrap_or_else(|| format!("{VERIF_DIR}/evidence/{prop}.json"));
         let threads = std::env::var("VERIF_THREADS").ok().and_then(|s| s.parse().ok()).unwrap_or(16);
         let only_family = get("--family");
+        let stride = get("--stride").and_then(|s| s.parse().ok()).unwrap_or(1usize).max(1);
         let replay = get("--replay").map(|p| {
             let s = std::fs::read_to_string(&p).unwrap_or_else(|e| {
                 eprintln!("cannot read replay file {p}: {e}");
@@ -179,6 +188,7 @@ impl Ctx {
             level: level.to_string(),
             threads,
             only_family,
+            stride,
             replay,
             start: Instant::now(),
             total: Mutex::new(Local::default()),
@@ -219,6 +229,10 @@ impl Ctx {
         F: Fn(usize, &mut Local) + Sync,
     {
         let t0 = Instant::now();
+        let stride = if self.replay.is_some() { 1 } else { self.stride };
+        let full_n = n;
+        let n = n.div_ceil(stride);
+        let count_pairs = self.prop == "C15";
         let next = AtomicUsize::new(0);
         let threads = self.threads.max(1).min(n.max(1));
         let chunk = (n / (threads * 32)).clamp(1, 4096);
@@ -235,6 +249,7 @@ impl Ctx {
                 let f = &f;
                 handles.push(s.spawn(move || {
                     let mut l = Local::default();
+                    l.count_pairs = count_pairs;
                     loop {
                         let lo = next.fetch_add(chunk, Ordering::Relaxed);
                         if lo >= n {
@@ -244,6 +259,7 @@ impl Ctx {
                         for i in lo..hi {
                             st.1.store(i, Ordering::Relaxed);
                             st.0.store(start.elapsed().as_millis() as u64 + 1, Ordering::Relaxed);
+                            let i = i * stride;
                             l.cur_index = i;
                             f(i, &mut l);
                         }
@@ -295,7 +311,7 @@ impl Ctx {
         merged.fails.sort_by(|a, b| a.0.cmp(&b.0));
         let sec = json!({
             "family": family, "width": width, "cases": merged.cases, "applications": merged.evals,
-            "index_space": n, "wall_s": t0.elapsed().as_secs_f64(),
+            "index_space": full_n, "explored": n, "stride": stride, "wall_s": t0.elapsed().as_secs_f64(),
         });
         self.sections.lock().unwrap().push(sec);
         self.total.lock().unwrap().merge(merged);
@@ -305,6 +321,7 @@ impl Ctx {
     pub fn seq<F: FnOnce(&mut Local)>(&self, family: &'static str, width: &str, f: F) {
         let t0 = Instant::now();
         let mut l = Local::default();
+        l.count_pairs = self.prop == "C15";
         f(&mut l);
         let sec = json!({"family": family, "width": width, "cases": l.cases, "applications": l.evals,
             "wall_s": t0.elapsed().as_secs_f64()});
@@ -415,6 +432,9 @@ impl Ctx {
             "zero_hit_classes": zero_classes,
             "sections": *self.sections.lock().unwrap(),
             "flavour": self.flavour,
+            "stride": self.stride,
+            "form_pairs": total.pairs.len(),
+            "form_pair_comparisons": total.pairs.iter().map(|((a, b), v)| (format!("{a} ~ {b}"), json!(v))).collect::<serde_json::Map<_, _>>(),
             "known_findings_observed": known_lines,
             "failures_attributed_to_other_properties": other,
         });
